@@ -35,6 +35,9 @@ type fq struct {
 	started    map[int]int
 	finished   map[int]int
 	recovered  map[int]int
+	workers    int
+	startOrder []int // ids in the order in which the tasks began / ended (printed for one-worker queues)
+	finOrder   []int
 	rel        map[int]chan struct{}
 	cur        map[int64]curTask // goroutine id -> the panicking task it is running
 	relAll     bool
@@ -57,6 +60,7 @@ func newFQ(workers, depth, inCap, mode int) *fq {
 		recovered: make(map[int]int),
 		rel:       make(map[int]chan struct{}),
 		cur:       make(map[int64]curTask),
+		workers:   workers,
 	}
 	f.subCond = sync.NewCond(&f.mu)
 	opts := []taskqueue.Option{taskqueue.Workers(workers), taskqueue.Depth(depth), taskqueue.VerifInCap(inCap)}
@@ -118,11 +122,13 @@ func (f *fq) task(id int, kind byte) taskqueue.Task {
 	return func() {
 		f.mu.Lock()
 		f.started[id]++
+		f.startOrder = append(f.startOrder, id)
 		ch := f.relChan(id)
 		f.mu.Unlock()
 		<-ch
 		f.mu.Lock()
 		f.finished[id]++
+		f.finOrder = append(f.finOrder, id)
 		if kind != 'n' {
 			f.cur[curGID()] = curTask{id: id, kind: kind}
 		}
@@ -173,11 +179,28 @@ func showCounts(m map[int]int) string {
 	return strings.Join(parts, ",")
 }
 
+func showSeq(l []int) string {
+	if len(l) == 0 {
+		return "-"
+	}
+	parts := make([]string, len(l))
+	for i, id := range l {
+		parts[i] = strconv.Itoa(id)
+	}
+	return strings.Join(parts, ",")
+}
+
+// obs: for a one-worker queue the tasks are printed in the ORDER in which they began and ended (the model predicts the
+// order: submission order), otherwise as sorted sets.
 func (f *fq) obs() string {
 	f.mu.Lock()
 	defer f.mu.Unlock()
-	return fmt.Sprintf("st=%s fin=%s rec=%s sub=%d sd=%d", showCounts(f.started), showCounts(f.finished),
-		showCounts(f.recovered), f.subDone, atomic.LoadInt32(&f.shut))
+	st, fin := showCounts(f.started), showCounts(f.finished)
+	if f.workers == 1 {
+		st, fin = showSeq(f.startOrder), showSeq(f.finOrder)
+	}
+	return fmt.Sprintf("st=%s fin=%s rec=%s sub=%d sd=%d", st, fin, showCounts(f.recovered), f.subDone,
+		atomic.LoadInt32(&f.shut))
 }
 
 var (
